@@ -169,7 +169,7 @@ class Module(nn.Module):
             elif isinstance(val, (int, float)):
                 constraint = self.constraint_for_parameter_name(name)
                 # (the constraint's transform needs a tensor)
-                if constraint is not None and not constraint.check_raw(torch.as_tensor(val, dtype=self.__getattr__(name).dtype, device=self.__getattr__(name).device)):
+                if constraint is not None and not constraint.check_raw(torch.as_tensor(val).to(self.__getattr__(name))):
                     raise RuntimeError(
                         "Attempting to manually set a parameter value that is out of bounds of "
                         f"its current constraints, {constraint}. "
